@@ -276,19 +276,33 @@ def module_caches(mod):
             v = st.value
             if (isinstance(v, ast.Dict) and not v.keys) or (isinstance(v, ast.Call) and isinstance(v.func, ast.Name) and v.func.id in ("dict", "OrderedDict", "WeakValueDictionary") and not v.args):
                 names.add(st.targets[0].id)
+    # class-level dictionaries are shared by all instances as well
+    cls_names = {}
+    for st in mod.tree.body:
+        if isinstance(st, ast.ClassDef):
+            for b in st.body:
+                if isinstance(b, ast.Assign) and len(b.targets) == 1 and isinstance(b.targets[0], ast.Name):
+                    v = b.value
+                    if (isinstance(v, ast.Dict) and not v.keys) or (isinstance(v, ast.Call) and isinstance(v.func, ast.Name) and v.func.id in ("dict", "OrderedDict") and not v.args):
+                        cls_names.setdefault(st.name, set()).add(b.targets[0].id)
     out = {}
-    if not names:
+    if not names and not cls_names:
         return out
     for qual, fn in mod.funcs.items():
-        src_names = {n.id for n in ast.walk(fn) if isinstance(n, ast.Name)}
-        if not (names & src_names):
+        src_names = {n.id for n in ast.walk(fn) if isinstance(n, ast.Name)} | {n.attr for n in ast.walk(fn) if isinstance(n, ast.Attribute)}
+        cls = qual.split(".")[0] if "." in qual else None
+        cn = cls_names.get(cls, set())
+        if not (names & src_names) and not (cn & src_names):
             continue
         ev = Ev(fn, mod.ctx).run()
         for e in ev.events:
             if e.kind == "store":
                 t = e.target.as_atom()
-                if t and t[0] == "sub" and t[1].key() in names and len(t[2]) == 1:
-                    out.setdefault(t[1].key(), []).append((qual, t[2][0], e))
+                if t and t[0] == "sub" and t[1].key() in names:
+                    out.setdefault(t[1].key(), []).append((qual, P.atom(("tuple", tuple(t[2]))) if len(t[2]) != 1 else t[2][0], e))
+                elif t and t[0] == "sub" and t[1].as_atom() and t[1].as_atom()[0] == "attr" and t[1].as_atom()[2] in cn \
+                        and t[1].as_atom()[1].key() in ("self", "cls", cls):
+                    out.setdefault(f"{cls}.{t[1].as_atom()[2]}", []).append((qual, P.atom(("tuple", tuple(t[2]))) if len(t[2]) != 1 else t[2][0], e))
     return out
 
 
